@@ -148,8 +148,41 @@ def check_one(cfg, res):
     res["nontrivial"] += 1
 
 
+def run_reuse(case, res):
+    """one solver object asked again after the borehole's height or the ground temperature changed (as GHE.simulate does): the
+    response must equal the one a fresh solver gives"""
+    import copy
+
+    import ghedesigner.radial_numerical_borehole as rn
+
+    cfg = case["cfg"]
+    bhe = build(cfg)
+    solver = rn.RadialNumericalBH(bhe)
+    solver.calc_sts_g_functions(bhe)
+    for step in case["steps"]:
+        res["evals"] += 1
+        if "H" in step:
+            bhe.b.H = step["H"]
+        if "ugt" in step:
+            bhe.soil.ugt = step["ugt"]
+        l1, g1 = solver.calc_sts_g_functions(bhe)
+        gb1 = np.array(solver.g_bhw)
+        fresh = rn.RadialNumericalBH(copy.deepcopy(bhe))
+        l2, g2 = fresh.calc_sts_g_functions(copy.deepcopy(bhe))
+        if not (np.allclose(l1, l2, rtol=0, atol=1e-12) and np.allclose(g1, g2, rtol=0, atol=1e-9) and np.allclose(gb1, fresh.g_bhw, rtol=0, atol=1e-9)):
+            res["violations"].append(core.viol("reused_solver_differs_from_fresh", dict(case, steps=case["steps"][: case["steps"].index(step) + 1]),
+                                               msg=f"after {step} the reused solver's last g is {float(g1[-1])!r}, a fresh solver gives {float(g2[-1])!r}", changed=sorted(step)))
+            break
+    res.outcome("reuse")
+    res["nontrivial"] += 1
+    res["sample"] = dict(case)
+
+
 def run_case(case):
     res = core.Result(evals=0)
+    if "steps" in case:
+        run_reuse(case, res)
+        return res
     if "H" in case:
         check_one(case, res)
         return res
@@ -164,11 +197,12 @@ def lattice(quick):
     import itertools
 
     if quick:
-        axes = [RBS[::2], PIPES[::2], HS[:2], KG[::2], KS[::2], RCG[:1], RCS[:1], FLUIDS[:1], MDOT[::2]]
+        axes = [RBS[::2], PIPES[::2], HS[:2], KG[::2], KS[::2], RCS[:1], FLUIDS[:1], MDOT[::2], RCG]
     else:
-        axes = [RBS, PIPES, HS, KG, KS, RCG, RCS, FLUIDS, MDOT]
+        axes = [RBS, PIPES, HS, KG, KS, RCS, FLUIDS, MDOT, RCG]
     out = []
-    for rb, p, h, kg, ks, rcg, rcs, fl, md in itertools.product(*axes):
+    # the grout heat capacity is the innermost axis: lattice points that differ only in it are neighbours (same worker, same chunk)
+    for rb, p, h, kg, ks, rcs, fl, md, rcg in itertools.product(*axes):
         out.append({"rb": rb, "pipe": list(p), "H": h, "k_g": kg, "k_s": ks, "rc_g": rcg, "rc_s": rcs, "fluid": list(fl), "mdot": md})
     return out
 
@@ -183,8 +217,12 @@ def main(run: core.Run, only=None):
         cfgs += [dict(c, H=400.0, reference=(i % 8 == 0)) for i, c in enumerate(cfgs) if c["H"] == 100.0 and i % 2 == 0]
     heavy = [c for c in cfgs if c["H"] >= 400.0]
     light = [c for c in cfgs if c["H"] < 400.0]
-    cases = [{"cfgs": light[i:i + 4]} for i in range(0, len(light), 4)] + [{"cfgs": [c]} for c in heavy]
+    cases = [{"cfgs": light[i:i + 4]} for i in range(0, len(light), 4)] + [{"cfgs": heavy[i:i + 2]} for i in range(0, len(heavy), 2)]
     run.drive(cases, family="lattice")
+    base = {"rb": 0.075, "pipe": [0.0136, 0.0167], "H": 100.0, "k_g": 1.0, "k_s": 2.0, "rc_g": 3.9e6, "rc_s": 2.3e6, "fluid": ["Water", 0.0], "mdot": 0.3}
+    reuse = [{"cfg": dict(base, **d), "steps": st} for d in ({}, {"H": 60.0, "mdot": 0.05}, {"rb": 0.12, "k_s": 4.0})
+             for st in ([{"H": 60.0}, {"H": 135.0}, {"H": 60.0}], [{"ugt": 11.0}, {"ugt": 25.0}], [{"H": 80.0, "ugt": 5.0}, {"H": 300.0}, {"ugt": 18.3}])]
+    run.drive(reuse, family="solver-reuse")
     return run.finish(
         rule="full factorial lattice (borehole radius x pipe x H x k_g x k_s x rho*c_g x rho*c_s x fluid x flow); one evaluation = one "
              "calc_sts_g_functions run observed cell by cell and step by step; non-trivial = every lattice point (pipes that do not fit are skipped and counted)",
@@ -192,5 +230,5 @@ def main(run: core.Run, only=None):
         assumptions=["the reference solver shares the layer model (Xu & Spitler equivalent layers) and R_b* (pygfunction) but not mesh, time step or solver",
                      "compared at the same elapsed time (number of solves x 120 s); the 120 s offset of the tool's time labels is not asserted",
                      "the far cell is held at the initial temperature; heat crossing into it is accounted for in the balance"],
-        require_outcomes=("laminar", "turbulent"),
+        require_outcomes=("laminar", "turbulent", "reuse"),
     )
